@@ -157,6 +157,23 @@ EXTRA4 = {
     "C19": ("R-TABLE cell kind tables (input tag -> TypeRef, From<T> for YOutput -> tag)", "Also decides the input and output cell-kind tables."),
 }
 
+EXTRA5 = {
+    "C01": ("shared clauses of the state-vector mechanism (exact skip override, hole-aware known_state) and the delete-set codecs in the block-wire grammar", "Also decides the hole-aware state vector / known state and the delete-set wire pair."),
+    "C02": ("R-PROV+R-GUARD BlockPicker::switch stashes the rest of the queue under the drained block's client (operands by provenance); state-vector mechanism", "Also decides which queue is stashed with a block and the hole-aware state vector."),
+    "C03": ("R-TABLE text units: content kinds under which the consuming effect of text::remove / find_position is reachable (kinds_reaching over discriminant switches)", "Also decides which content kinds count as a unit of a text in remove / find_position."),
+    "C05": ("delete-set mechanism (mirror of IdRanges::merge, no empty piece, half-open discipline)", "Also decides structural clauses of the delete-set algebra a transaction's deletions travel in."),
+    "C06": ("exact R-PROV+R-GUARD rule for BlockStore::get_state_vector (value = clock_start of this round's ranges, decided by presence only, no removal) and known_state", "Also decides the exact form of the skip override."),
+    "C07": ("state-vector mechanism; delete-set codecs in the block-wire grammar", "Also decides the delete-set wire pair under this property."),
+    "C08": ("R-SIB mirror: the twin branches of IdRanges::merge are role-exchanged images of each other (name-free value unification)", "Also decides the operand symmetry of the range-list union behind merged delete sets."),
+    "C12": ("R-SCAN quantifier predicates: UndoStack::is_deleted scans the whole stack, Branch::is_parent_of walks the chain, every scope test is `any` over the scope's own iterator", "Also decides the quantifier shape of the undo manager's membership predicates."),
+    "C13": ("count rule: no iteration of a loop with an announced count can emit nothing (continue/break markers in the wire grammar); state-vector mechanism", "Also decides that every announced section of a snapshot update is written."),
+    "C14": ("R-PROV every producer of a StickyIndex in at() takes its anchor from the liveness-aware walk behind a successful try_forward", "Also decides the anchor of every constructor used by StickyIndex::at."),
+    "C16": ("R-GUARD no empty piece appended (strict start<end by value numbering); R-SCAN subset_of; R-SIB mirror of IdRanges::merge; attribute-set algebra by whole-element equality; half-open discipline of comparisons in ids.rs", "Also decides: no empty range stored by the interval algorithms, operand symmetry of merge, whole-element membership in attribute sets, unshifted bound comparisons — not the set-theoretic result."),
+    "C17": ("same-item liveness: the test that decides a content read looks at the item that is read (value keys)", "Also decides that liveness tests look at the yielded item."),
+    "C18": ("state-vector mechanism", "Also decides the hole-aware state vector SyncStep1 advertises."),
+    "C20": ("R-GUARD end-of-range tests of a text quotation evaluated for every item; R-SIB every emitting content arm of DiffAssembler::process honours start state and end test", "Also decides the boundary handling of Text and XmlText quotations for every kind of element (one genuine defect fixed)."),
+}
+
 PENDING = {
 }
 
@@ -165,7 +182,7 @@ def main():
     checks = []
     for pid in sorted(CHECKS):
         tech, text, ref = CHECKS[pid]
-        for ex in (EXTRA, EXTRA2, EXTRA3, EXTRA4):
+        for ex in (EXTRA, EXTRA2, EXTRA3, EXTRA4, EXTRA5):
             if pid in ex:
                 tech = tech + "; " + ex[pid][0]
                 text = text + " " + ex[pid][1]
